@@ -402,7 +402,39 @@ func main() {
 			}
 			sent := map[[2]int]bool{}
 			rounds := 0
+			claimed := map[[2]int64]bool{}
 			for ; rounds < 120 && !done(); rounds++ {
+				// catch-up of a node that is a height behind somebody: the reactor of the node ahead claims the
+				// commit it has for that height (queryMaj23Routine: VoteSetMaj23 with LoadCommit(h)) and sends the
+				// precommits of that commit (gossipVotesRoutine). The claim matters when the commit holds a vote of
+				// an equivocating validator: the node behind may have seen another vote of that validator first and
+				// counts the conflicting one only for a block somebody claims +2/3 for.
+				for _, j := range honest {
+					if dead[j] || claimed[[2]int64{int64(j), height[j]}] {
+						continue
+					}
+					for _, k := range honest {
+						if dead[k] || height[k] <= height[j] {
+							continue
+						}
+						c := nodes[k].C.CS.LoadCommit(height[j])
+						if c == nil || len(c.Precommits) == 0 {
+							continue
+						}
+						claimed[[2]int64{int64(j), height[j]}] = true
+						hj, name := height[j], nodes[k].NameOfHash(c.BlockID.Hash)
+						run(j, fmt.Sprintf("maj23 t=2 h=%d r=%d block=%s peer=p%d", hj, c.Round(), name, k))
+						for _, pc := range c.Precommits {
+							if pc == nil || dead[j] || height[j] != hj {
+								continue
+							}
+							run(j, fmt.Sprintf("vote t=2 h=%d r=%d idx=%d addr=%s block=%s ok=1 peer=p%d", hj, pc.Round, pc.ValidatorIndex, addr(int(pc.ValidatorIndex)), nodes[k].NameOfHash(pc.BlockID.Hash), k))
+							drain(j)
+						}
+						r.Count("live.catchup-claim")
+						break
+					}
+				}
 				for q := 0; q < len(pool); q++ { // the pool grows while we deliver
 					for _, j := range honest {
 						// block parts are offered again every round: the reactor's data gossip keeps sending a peer
@@ -410,7 +442,9 @@ func main() {
 						// with a CommitStep message), so one delivery at a moment the node expected another block's
 						// parts is not the last one
 						again := strings.HasPrefix(pool[q].op, "parts ")
-						if dead[j] || pool[q].from == j || (sent[[2]int{q, j}] && !again) || msgH(pool[q].op) != height[j] {
+						// (also to the node that made the block: it drops its own proposal block at a round change and,
+						// when the others commit it, has to fetch the parts from them like anybody else)
+						if dead[j] || (pool[q].from == j && !again) || (sent[[2]int{q, j}] && !again) || msgH(pool[q].op) != height[j] {
 							continue
 						}
 						sent[[2]int{q, j}] = true
